@@ -500,7 +500,9 @@ def r4_flag_confinement(a, tier):
                     continue
                 in_tracer = f.cls is not None and f.cls.qualname in tracer_impls
                 rep.add({'flag': n.attr, 'read_in': q})
-                if n.attr in trace_flags and not (q in allowed_trace or in_tracer):
+                # a private helper that exists only for an observer (`_new_tracer(core)` of update_tracer) reads on its behalf
+                on_behalf = q not in allowed_trace and not in_tracer and a.callgraph.only_reached_through(q, allowed_trace)
+                if n.attr in trace_flags and not (q in allowed_trace or in_tracer or on_behalf):
                     rep.fail(q, f'flag-read:{n.attr}', f'`{norm(n)}` is read by engine code outside the observers: the parse '
                              f'can behave differently with {n.attr} on', f'{f.module.relpath}:{n.lineno}')
                 if n.attr == 'parseinfo' and q not in (f'{ENGINE}.make_parseinfo',):
@@ -630,7 +632,7 @@ def r5_settings_gate_only_the_store(a, tier):
             continue
         pm = a.resolver.parents(f)
         for r in reads:
-            if f.qualname in SIZING_FUNCTIONS:
+            if f.qualname in SIZING_FUNCTIONS or a.callgraph.only_reached_through(f.qualname, SIZING_FUNCTIONS):  # also a private helper of the sizing function
                 rep.add({'function': f.qualname, 'reads': r.attr, 'use': 'sizes the store'})
                 continue
             # the enclosing `if` whose test holds the read (possibly through a local bound once)
@@ -858,5 +860,55 @@ def r10_observer_settings(a, tier):
     return rep
 
 
+def r11_failures_are_offered(a, tier):
+    """the error a parse reports does not depend on whether a failure was computed or replayed from the memo"""
+    from ..minieval import Obj, Raised, Unsupported
+    from ..modelinterp import Bound, Hook, ModelInterp, Recorder, Stub
+    rep = RuleReport(
+        'C04.R11',
+        'the class of the error a failed parse reports is the same with the memo on or off: the failure bound() re-raises is the FURTHEST one '
+        'offered to set_furthest_exception(), so a rule\'s failure must be offered whether its body just failed or the failure was replayed '
+        'from the memo. call() and rule_call(), interpreted TOGETHER on a stand-in engine (scripted body, action, memo): when the rule fails '
+        'afresh and when memo() hands back a remembered failure, set_furthest_exception() receives that very failure before call() is left, '
+        'the caller is put back to the position before the rule, and the failure is what call() raises',
+        floor=2,
+    )
+    CTX = 'tatsu.contexts.context.ParseContext'
+    fn = a.ct.lookup(CTX, 'call')
+    if fn is None:
+        raise AnalysisError('C04.R11: ParseContext.call not found')
+    RR = 'tatsu.contexts.infos.RuleResult'
+    for what, memo_hit in (('the body of the rule fails', False), ('a remembered failure is replayed from the memo', True)):
+        failure = Raised('FailedToken', ast.Pass())
+        offered: list = []
+        gotos: list = []
+
+        def body(ri, failure=failure):
+            raise failure
+        me = Stub(CTX, state=Recorder('state'), states=Recorder('states'), tracer=Recorder('tracer'), callstack=[], pos=3, heartbeat=Hook(lambda: None),
+                  next_token=Hook(lambda *x: None), goto=Hook(lambda p: gotos.append(p)), set_furthest_exception=Hook(lambda e: offered.append(e)),
+                  memo=Hook(lambda key, failure=failure, memo_hit=memo_hit: failure if memo_hit else None), set_left_recursion_guard=Hook(lambda key: None),
+                  func_call=Hook(body), semantics_call=Hook(lambda ri, node, pos=None: node), set_parseinfo=Hook(lambda *x, **k: None), memoize=Hook(lambda key, res: None),
+                  newexcept=Hook(lambda *x, **k: Raised('FailedParse', ast.Pass())), clear_left_recursion_guard=Hook(lambda key: None))
+        it = ModelInterp(a, {'RuleResult': Hook(lambda node, newpos: Stub(RR, node=node, newpos=newpos), q=RR), 'MemoKey': Hook(lambda pos, ri: Obj(pos=pos, ruleinfo=ri))})
+        ri = Obj(should_trace=False, is_lrec=False, is_tokn=False, is_name=False, name='r')
+        try:
+            it.call_bound(Bound(me, fn), [ri], {})
+            out = None
+        except Raised as r:
+            out = r
+        except Unsupported as e:
+            raise AnalysisError(f'C04.R11: cannot interpret call() / rule_call(): {e}') from e
+        ok = out is failure and any(x is failure for x in offered) and gotos[-1:] == [3]
+        rep.add({'scenario': what, 'raises_the_failure': out is failure, 'offered_as_furthest': any(x is failure for x in offered), 'caller_put_back_to': gotos[-1:], 'ok': ok})
+        if not any(x is failure for x in offered):
+            rep.fail(fn.qualname, f'failure-not-offered:{"replay" if memo_hit else "fresh"}', f'when {what}, call() is left without the failure having been offered to '
+                     f'set_furthest_exception(): with the memo on, the parse reports another (earlier or later-recorded) error than with the memo off', fn.loc)
+        elif not ok:
+            rep.fail(fn.qualname, f'failure-path:{"replay" if memo_hit else "fresh"}', f'when {what}, call() raises {out.cls_name if out is not None else None} and puts the caller to '
+                     f'{gotos[-1:]} (required: the failure itself, position 3)', fn.loc)
+    return rep
+
+
 RULES = [r1_key_derivation, r2_ownership, r3_observer_purity, r4_flag_confinement, r5_settings_gate_only_the_store, r_replay, r7_failure_memo, r8_key_identity,
-         r9_seeds_never_evicted, r10_observer_settings]
+         r9_seeds_never_evicted, r10_observer_settings, r11_failures_are_offered]
